@@ -506,6 +506,16 @@ func (w *World) eventEnabled(ev string) bool {
 		pc := w.connOf(p[1])
 		return !w.bursted && pc != nil && pc.conn != nil && !pc.conn.IsClosed() && !pc.conn.Peer.IsClosed()
 	case "inv", "tx", "uping":
+		if p[0] != "uping" && p[1] == "T" && len(p) > 2 {
+			// peer assumption: a Bitcoin node does not relay a tx that double spends a tx confirmed on its best chain
+			for _, bn := range w.Best {
+				for _, t := range w.Tree.blocks[bn].txs {
+					if w.Txs[p[2]] != nil && w.Txs[t] != nil && w.conflicts(t, p[2]) {
+						return false
+					}
+				}
+			}
+		}
 		pc := w.connOf(p[1])
 		return pc != nil && pc.conn != nil && !pc.conn.IsClosed() && !pc.conn.Peer.IsClosed()
 	case "uans":
